@@ -283,6 +283,13 @@ Section GoSem.
         | GV (GStr _), GPanic => GPanic
         | _, _ => GStuck
         end
+    | GMatchSafe p s =>                 (* regexp.Compile fails: the closure returns false *)
+        match geval vars p, geval vars s with
+        | GV (GStr pat), GV (GStr subj) => match re_match pat subj with Some r => GV (GBool r) | None => GV (GBool false) end
+        | GPanic, _ => GPanic
+        | GV (GStr _), GPanic => GPanic
+        | _, _ => GStuck
+        end
     | GSprintV x => gbind (geval vars x) gsprint
     | GSlicesContains l x =>
         match geval vars l, geval vars x with
